@@ -9,7 +9,7 @@
    Checked here by computation: the wf_fk_b / wf_casc_b side conditions of those theorems for every fk edge of the five
    wirings, and the behaviour of the machine the correspondence run compares the real code with on such patches. *)
 From Coq Require Import List NArith Bool.
-From Storage Require Import Base.Bytes Store.Model Store.FkProofs Store.FkDelete Store.FkWf Examples.C03Examples Examples.C04Examples.
+From Storage Require Import Base.Bytes Store.Model Store.FrameProofs Store.FkProofs Store.FkDelete Store.FkWf Store.FkChildGuard Store.FkChildCascade Examples.C03Examples Examples.C04Examples.
 Import ListNotations.
 Open Scope N_scope.
 
@@ -88,3 +88,292 @@ Example c04w_patch_not_selected :
       get_set c04ib_schema st' n_dept c04w_d1 n_members = [c04w_e]
   end.
 Proof. vm_compute. repeat split; reflexivity. Qed.
+
+(* ================================================================================================================
+   C04, fifth wave: fk edges that start or end at a CHILD store (harness/cmd/storageharness/store_c04_child.go).
+
+   The schemas between the two markers are GENERATED from the harness wirings (sub-command c04-coqschema: the derived
+   constraint lists exactly as the case texts hand them to the store machine); checks/c04.py regenerates the text on
+   every run and compares it with this block, so the computations below are about the wirings the histories run on. *)
+(* generated: begin *)
+Definition k_name : name := [110;97;109;101].
+Definition k_manager : name := [109;97;110;97;103;101;114].
+Definition k_mgr : name := [109;103;114].
+Definition k_deputy : name := [100;101;112;117;116;121].
+Definition k_emp : name := [101;109;112].
+Definition k_label : name := [108;97;98;101;108].
+Definition k_head : name := [104;101;97;100].
+Definition k_heads : name := [104;101;97;100;115].
+Definition k_loc : name := [108;111;99].
+Definition k_title : name := [116;105;116;108;101].
+Definition k_owner : name := [111;119;110;101;114].
+Definition k_eng : name := [101;110;103].
+Definition k_proj : name := [112;114;111;106].
+Definition k_level : name := [108;101;118;101;108].
+Definition k_team : name := [116;101;97;109].
+Definition k_grade : name := [103;114;97;100;101].
+Definition k_lead : name := [108;101;97;100].
+Definition k_engs : name := [101;110;103;115].
+Definition k_b : name := [98].
+Definition k_a : name := [97].
+Definition k_bs : name := [98;115].
+Definition k_peers : name := [112;101;101;114;115].
+Definition k_bx : name := [98;120].
+Definition k_bx2 : name := [98;120;50].
+Definition k_cs : name := [99;115].
+Definition k_c : name := [99].
+Definition k_code : name := [99;111;100;101].
+Definition k_peer : name := [112;101;101;114].
+Definition k_up : name := [117;112].
+Definition k_backup : name := [98;97;99;107;117;112].
+Definition k_watcher : name := [119;97;116;99;104;101;114].
+Definition k_aud : name := [97;117;100].
+Definition k_tasks : name := [116;97;115;107;115].
+Definition k_task : name := [116;97;115;107].
+Definition k_text : name := [116;101;120;116].
+Definition k_notes : name := [110;111;116;101;115].
+Definition k_note : name := [110;111;116;101].
+Definition c04cp_schema : schema :=
+  [ mkSdef k_emp None false [(k_name, false); (k_manager, true)] []
+      [CFkCons k_manager k_mgr true; CFkCascade k_mgr k_deputy CascNone] [];
+    mkSdef k_loc None false [(k_label, false); (k_head, true)] []
+      [CFkIndex k_head k_mgr k_heads true] [];
+    mkSdef k_proj None false [(k_title, false); (k_owner, true)] []
+      [CFkCascade k_eng k_proj CascDelete; CFkCons k_owner k_eng true] [];
+    mkSdef k_mgr (Some k_emp) false [(k_level, true); (k_deputy, true)] []
+      [CFkCascade k_emp k_manager CascNone; CFkRestrict k_heads; CFkCons k_deputy k_emp true; CFkRestrict k_team; CUnique k_level true] [];
+    mkSdef k_eng (Some k_emp) false [(k_grade, true); (k_lead, true); (k_proj, false)] []
+      [CFkIndex k_lead k_mgr k_team true; CFkIndex k_proj k_proj k_engs false; CFkCascade k_proj k_owner CascNone] [] ].
+Definition c04cx_schema : schema :=
+  [ mkSdef k_a None false [(k_name, false)] []
+      [CFkCascade k_b k_a CascDelete] [];
+    mkSdef k_b None false [(k_name, false); (k_a, false)] []
+      [CFkIndex k_a k_a k_bs false; CFkRestrict k_peers] [];
+    mkSdef k_c None false [(k_name, true); (k_bx, true); (k_bx2, true)] []
+      [CFkCons k_bx k_bx true; CFkIndex k_bx2 k_bx k_cs true] [];
+    mkSdef k_bx (Some k_b) true [(k_code, true); (k_peer, true); (k_up, true)] []
+      [CFkCascade k_c k_bx CascNone; CFkRestrict k_cs; CFkIndex k_peer k_b k_peers true; CFkCons k_up k_bx true; CFkCascade k_bx k_up CascNone; CUnique k_code true] [] ].
+Definition c04cd_schema : schema :=
+  [ mkSdef k_emp None false [(k_name, false)] []
+      [] [];
+    mkSdef k_proj None false [(k_title, false); (k_backup, true); (k_watcher, true)] []
+      [CFkCons k_backup k_mgr true; CFkCons k_watcher k_aud true; CFkRestrict k_tasks] [];
+    mkSdef k_task None false [(k_name, false); (k_proj, false)] []
+      [CFkIndex k_proj k_proj k_tasks false] [];
+    mkSdef k_note None false [(k_text, true); (k_mgr, false)] []
+      [CFkIndex k_mgr k_mgr k_notes false] [];
+    mkSdef k_mgr (Some k_emp) false [(k_level, true)] []
+      [CFkCascade k_proj k_backup CascDelete; CFkCascade k_note k_mgr CascDelete] [];
+    mkSdef k_aud (Some k_emp) true [(k_code, true)] []
+      [CFkCascade k_proj k_watcher CascDelete] [] ].
+(* generated: end *)
+
+(* ---- which theorems of Properties/C04.v cover which edge ---- *)
+Example c04_child_wirings_stores_wf :
+  wf_stores_b c04cp_schema && wf_stores_b c04cx_schema && wf_stores_b c04cd_schema = true.
+Proof. vm_compute. reflexivity. Qed.
+
+(* edges between root stores: the invariant theorems (fk_target_exists, backrefs_exact, ...) apply as they stand *)
+Example c04_child_wirings_root_edges_wf :
+  wf_fk_b c04cx_schema k_b k_a k_a (Some k_bs) && wf_fk_b c04cd_schema k_task k_proj k_proj (Some k_tasks) = true.
+Proof. vm_compute. reflexivity. Qed.
+
+(* cascading deletes on root stores only: C04cp (eng.proj -> proj cascades from the root store proj) and C04cx;
+   C04cd wires cascading guards on the child stores mgr / aud: delete_cascade_exact does not apply there,
+   delete_cascade_exact_any does (it needs wf_stores_b only) *)
+Example c04_child_wirings_wf_casc :
+  wf_casc_b c04cp_schema = true /\ wf_casc_b c04cx_schema = true /\ wf_casc_b c04cd_schema = false.
+Proof. vm_compute. repeat split; reflexivity. Qed.
+
+(* NOT covered by the invariant theorems: wf_fk_b demands root stores at both ends of an edge.  For the twelve edges
+   below "targets exist / back-references exact" is checked by the correspondence run and by the oracle on the
+   implementation's facts only; what IS proved about them for every state is the delete side: delete_child_guard_refused
+   (instances below) and delete_cascade_exact_any. *)
+Example c04_child_edges_outside_wf_fk :
+  wf_fk_b c04cp_schema k_emp k_manager k_mgr None || wf_fk_b c04cp_schema k_loc k_head k_mgr (Some k_heads) ||
+  wf_fk_b c04cp_schema k_mgr k_deputy k_emp None || wf_fk_b c04cp_schema k_eng k_lead k_mgr (Some k_team) ||
+  wf_fk_b c04cp_schema k_eng k_proj k_proj (Some k_engs) || wf_fk_b c04cp_schema k_proj k_owner k_eng None ||
+  wf_fk_b c04cx_schema k_c k_bx k_bx None || wf_fk_b c04cx_schema k_c k_bx2 k_bx (Some k_cs) ||
+  wf_fk_b c04cx_schema k_bx k_peer k_b (Some k_peers) || wf_fk_b c04cx_schema k_bx k_up k_bx None ||
+  wf_fk_b c04cd_schema k_proj k_backup k_mgr None || wf_fk_b c04cd_schema k_proj k_watcher k_aud None ||
+  wf_fk_b c04cd_schema k_note k_mgr k_mgr (Some k_notes) = false.
+Proof. vm_compute. reflexivity. Qed.
+
+(* ---- delete_child_guard_refused applies to every restricting guard that sits on a child store ---- *)
+Lemma c04_child_guard_applies sch r0 cd before after pre post k :
+  wf_stores_b sch = true -> children_of sch r0 = before ++ cd :: after -> cons_of sch (sd_name cd) = pre ++ k :: post ->
+  quiet (cons_of sch r0) = true -> forallb (fun d => quiet (cons_of sch (sd_name d))) before = true -> quiet pre = true ->
+  forall oc n st evs s0 x, root_of sch s0 = r0 -> loadable sch st (sd_name cd) x = true -> guard_fires sch st (sd_name cd) x k ->
+    exists e, delete_by_id sch oc (S n) (st, evs) s0 x = Err e.
+Proof.
+  intros Hwf Hsplit Hcons Hqr Hqb Hqp oc n st evs s0 x Hr Hl Hg.
+  apply (delete_child_guard_refused_lemma sch oc n st evs s0 x cd before after pre post k Hwf); rewrite ?Hr; try assumption.
+  rewrite forallb_forall in Hqb. exact Hqb.
+Qed.
+
+Definition c04_nosd : sdef := mkSdef [] None false [] [] [] [].
+Definition c04cp_mgr : sdef := nth 3 c04cp_schema c04_nosd.
+Definition c04cp_eng : sdef := nth 4 c04cp_schema c04_nosd.
+Definition c04cx_bx : sdef := nth 3 c04cx_schema c04_nosd.
+
+(* emp.manager -> mgr (fk constraint, restrict): the guard is the first hook of the child store mgr *)
+Example c04cp_guard_manager : forall oc n st evs s0 x,
+  root_of c04cp_schema s0 = k_emp -> loadable c04cp_schema st k_mgr x = true ->
+  (exists j, casc_matches c04cp_schema k_emp k_manager x st j = true) ->
+  exists e, delete_by_id c04cp_schema oc (S n) (st, evs) s0 x = Err e.
+Proof.
+  exact (c04_child_guard_applies c04cp_schema k_emp c04cp_mgr [] [c04cp_eng] [] _ (CFkCascade k_emp k_manager CascNone)
+           eq_refl eq_refl eq_refl eq_refl eq_refl eq_refl).
+Qed.
+
+(* loc.head -> mgr and eng.lead -> mgr (fk indexes): the back-reference sets heads / team are guarded on mgr *)
+Example c04cp_guard_heads : forall oc n st evs s0 x,
+  root_of c04cp_schema s0 = k_emp -> loadable c04cp_schema st k_mgr x = true ->
+  (exists j, j <> x /\ In j (get_set c04cp_schema st k_mgr x k_heads)) ->
+  exists e, delete_by_id c04cp_schema oc (S n) (st, evs) s0 x = Err e.
+Proof.
+  exact (c04_child_guard_applies c04cp_schema k_emp c04cp_mgr [] [c04cp_eng] [CFkCascade k_emp k_manager CascNone] _ (CFkRestrict k_heads)
+           eq_refl eq_refl eq_refl eq_refl eq_refl eq_refl).
+Qed.
+Example c04cp_guard_team : forall oc n st evs s0 x,
+  root_of c04cp_schema s0 = k_emp -> loadable c04cp_schema st k_mgr x = true ->
+  (exists j, j <> x /\ In j (get_set c04cp_schema st k_mgr x k_team)) ->
+  exists e, delete_by_id c04cp_schema oc (S n) (st, evs) s0 x = Err e.
+Proof.
+  exact (c04_child_guard_applies c04cp_schema k_emp c04cp_mgr [] [c04cp_eng]
+           [CFkCascade k_emp k_manager CascNone; CFkRestrict k_heads; CFkCons k_deputy k_emp true] _ (CFkRestrict k_team)
+           eq_refl eq_refl eq_refl eq_refl eq_refl eq_refl).
+Qed.
+
+(* proj.owner -> eng: the guard sits on the SECOND child store; the hooks of mgr run before it *)
+Example c04cp_guard_owner : forall oc n st evs s0 x,
+  root_of c04cp_schema s0 = k_emp -> loadable c04cp_schema st k_eng x = true ->
+  (exists j, casc_matches c04cp_schema k_proj k_owner x st j = true) ->
+  exists e, delete_by_id c04cp_schema oc (S n) (st, evs) s0 x = Err e.
+Proof.
+  exact (c04_child_guard_applies c04cp_schema k_emp c04cp_eng [c04cp_mgr] []
+           [CFkIndex k_lead k_mgr k_team true; CFkIndex k_proj k_proj k_engs false] _ (CFkCascade k_proj k_owner CascNone)
+           eq_refl eq_refl eq_refl eq_refl eq_refl eq_refl).
+Qed.
+
+(* the extended child store bx of b: c.bx -> bx (fk constraint), c.bx2 -> bx (fk index), bx.up -> bx (child -> itself) *)
+Example c04cx_guard_bx : forall oc n st evs s0 x,
+  root_of c04cx_schema s0 = k_b -> loadable c04cx_schema st k_bx x = true ->
+  (exists j, casc_matches c04cx_schema k_c k_bx x st j = true) ->
+  exists e, delete_by_id c04cx_schema oc (S n) (st, evs) s0 x = Err e.
+Proof.
+  exact (c04_child_guard_applies c04cx_schema k_b c04cx_bx [] [] [] _ (CFkCascade k_c k_bx CascNone)
+           eq_refl eq_refl eq_refl eq_refl eq_refl eq_refl).
+Qed.
+Example c04cx_guard_cs : forall oc n st evs s0 x,
+  root_of c04cx_schema s0 = k_b -> loadable c04cx_schema st k_bx x = true ->
+  (exists j, j <> x /\ In j (get_set c04cx_schema st k_bx x k_cs)) ->
+  exists e, delete_by_id c04cx_schema oc (S n) (st, evs) s0 x = Err e.
+Proof.
+  exact (c04_child_guard_applies c04cx_schema k_b c04cx_bx [] [] [CFkCascade k_c k_bx CascNone] _ (CFkRestrict k_cs)
+           eq_refl eq_refl eq_refl eq_refl eq_refl eq_refl).
+Qed.
+Example c04cx_guard_up : forall oc n st evs s0 x,
+  root_of c04cx_schema s0 = k_b -> loadable c04cx_schema st k_bx x = true ->
+  (exists j, casc_matches c04cx_schema k_bx k_up x st j = true) ->
+  exists e, delete_by_id c04cx_schema oc (S n) (st, evs) s0 x = Err e.
+Proof.
+  exact (c04_child_guard_applies c04cx_schema k_b c04cx_bx [] []
+           [CFkCascade k_c k_bx CascNone; CFkRestrict k_cs; CFkIndex k_peer k_b k_peers true; CFkCons k_up k_bx true] _
+           (CFkCascade k_bx k_up CascNone) eq_refl eq_refl eq_refl eq_refl eq_refl eq_refl).
+Qed.
+
+(* ---- the machine on these wirings (what the correspondence run demands of the real code) ---- *)
+Definition c04k_m1 : id := [109;49].
+Definition c04k_m2 : id := [109;50].
+Definition c04k_e1 : id := [101;49].
+Definition c04k_l1 : id := [108;49].
+Definition c04k_p1 : id := [112;49].
+Definition c04k_t1 : id := [116;49].
+Definition c04k_o1 : id := [111;49].
+Definition c04k_nm : str := [110].
+
+Definition c04cp_mk_mgr (i : id) : op :=
+  OCreate k_mgr i false [(k_name, Some c04k_nm); (k_manager, None); (k_level, None); (k_deputy, None)] [].
+Definition c04cp_mk_emp (i : id) (manager : option id) : op :=
+  OCreate k_emp i false [(k_name, Some c04k_nm); (k_manager, manager)] [].
+Definition c04cp_st : state :=
+  run_txs c04cp_schema 8 st_empty
+    [ mkTx false [] [c04cp_mk_mgr c04k_m1; c04cp_mk_mgr c04k_m2; c04cp_mk_emp c04k_e1 (Some c04k_m1);
+                     OCreate k_loc c04k_l1 false [(k_label, Some c04k_nm); (k_head, Some c04k_m1)] []] false ].
+
+Example c04cp_start :
+  present c04cp_schema c04cp_st k_mgr c04k_m1 = true /\ present c04cp_schema c04cp_st k_mgr c04k_e1 = false /\
+  get_field c04cp_schema c04cp_st k_emp c04k_e1 k_manager = FStr c04k_m1 /\
+  get_set c04cp_schema c04cp_st k_mgr c04k_m1 k_heads = [c04k_l1].
+Proof. vm_compute. repeat split; reflexivity. Qed.
+
+(* the hypotheses of c04cp_guard_manager / c04cp_guard_heads are met in this state (non-vacuity) *)
+Example c04cp_guards_fire :
+  loadable c04cp_schema c04cp_st k_mgr c04k_m1 = true /\
+  casc_matches c04cp_schema k_emp k_manager c04k_m1 c04cp_st c04k_e1 = true /\
+  (c04k_l1 <> c04k_m1 /\ In c04k_l1 (get_set c04cp_schema c04cp_st k_mgr c04k_m1 k_heads)).
+Proof. vm_compute. repeat split; try reflexivity; [discriminate | left; reflexivity]. Qed.
+
+(* deleting the referenced manager - through the parent store or through the child store - is refused with
+   ReferenceExists and changes nothing (the case seeded/C04-w5-1 breaks) *)
+Example c04cp_delete_referenced_manager_refused :
+  run_tx c04cp_schema 8 c04cp_st (mkTx false [] [ODelete k_emp c04k_m1] false) = ([Some ERefExists], false, c04cp_st, []) /\
+  run_tx c04cp_schema 8 c04cp_st (mkTx false [] [ODelete k_mgr c04k_m1] false) = ([Some ERefExists], false, c04cp_st, []).
+Proof. vm_compute. split; reflexivity. Qed.
+
+(* an unreferenced manager can be deleted; once the references are released the first one can, too *)
+Example c04cp_delete_after_release :
+  match run_tx c04cp_schema 8 c04cp_st (mkTx false [] [ODelete k_emp c04k_m2;
+          OUpdate k_emp c04k_e1 [(k_name, Some c04k_nm); (k_manager, None)] [] (Some [k_manager]);
+          OUpdate k_loc c04k_l1 [(k_label, Some c04k_nm); (k_head, Some c04k_m1)] [] (Some [k_label]);
+          ODelete k_mgr c04k_m1] false) with
+  | (rs, committed, _, _) => rs = [None; None; None; Some ERefExists] /\ committed = false
+  end /\
+  match run_tx c04cp_schema 8 c04cp_st (mkTx false [] [
+          OUpdate k_emp c04k_e1 [(k_name, Some c04k_nm); (k_manager, None)] [] (Some [k_manager]);
+          OUpdate k_loc c04k_l1 [(k_label, Some c04k_nm); (k_head, None)] [] (Some [k_head]);
+          ODelete k_mgr c04k_m1] false) with
+  | (rs, committed, st', _) => rs = [None; None; None] /\ committed = true /\ get_ent st' k_emp c04k_m1 = None /\
+                               present c04cp_schema st' k_emp c04k_e1 = true
+  end.
+Proof. vm_compute. repeat split; reflexivity. Qed.
+
+(* the target of emp.manager must be a MANAGER: an employee without data in the child store is not a target *)
+Example c04cp_reference_to_non_manager_refused :
+  run_tx c04cp_schema 8 c04cp_st (mkTx false [] [c04cp_mk_emp [101;50] (Some c04k_e1)] false) = ([Some ENotFound], false, c04cp_st, []) /\
+  run_tx c04cp_schema 8 c04cp_st (mkTx false [] [OUpdate k_loc c04k_l1 [(k_label, Some c04k_nm); (k_head, Some c04k_e1)] [] None] false)
+    = ([Some ENotFound], false, c04cp_st, []).
+Proof. vm_compute. split; reflexivity. Qed.
+
+(* C04cd: the cascading guards of the child store mgr *)
+Definition c04cd_st (with_task : bool) : state :=
+  run_txs c04cd_schema 8 st_empty
+    [ mkTx false [] ([OCreate k_mgr c04k_m1 false [(k_name, Some c04k_nm); (k_level, None)] [];
+                      OCreate k_emp c04k_e1 false [(k_name, Some c04k_nm)] [];
+                      OCreate k_proj c04k_p1 false [(k_title, Some c04k_nm); (k_backup, Some c04k_m1); (k_watcher, None)] [];
+                      OCreate k_note c04k_o1 false [(k_text, None); (k_mgr, Some c04k_m1)] []] ++
+                     (if with_task then [OCreate k_task c04k_t1 false [(k_name, Some c04k_nm); (k_proj, Some c04k_p1)] []] else [])) false ].
+
+(* the cascade from the manager removes exactly the project backed up by it and its note *)
+Example c04cd_cascade_exact :
+  match run_tx c04cd_schema 8 (c04cd_st false) (mkTx false [] [ODelete k_emp c04k_m1] false) with
+  | (rs, committed, st', _) => rs = [None] /\ committed = true /\
+      ids_of st' k_emp = [c04k_e1] /\ ids_of st' k_proj = [] /\ ids_of st' k_note = []
+  end.
+Proof. vm_compute. repeat split; reflexivity. Qed.
+
+(* ... and is refused as a whole, leaving everything in place, when the project is still referenced by a task *)
+Example c04cd_cascade_refused_half_way :
+  run_tx c04cd_schema 8 (c04cd_st true) (mkTx false [] [ODelete k_mgr c04k_m1] false) = ([Some ERefExists], false, c04cd_st true, []).
+Proof. vm_compute. reflexivity. Qed.
+
+(* reachability of delete_cascade_exact_any in that state: the project is reached through the list of the child store *)
+Example c04cd_reachc_project : reachc c04cd_schema (c04cd_st false) (k_emp, c04k_m1) (k_proj, c04k_p1).
+Proof.
+  apply (reachc_step c04cd_schema (c04cd_st false) (k_emp, c04k_m1) k_emp c04k_m1 k_mgr k_proj k_backup c04k_p1).
+  - apply reachc_refl.
+  - right. exists (nth 4 c04cd_schema c04_nosd). vm_compute. repeat split; try reflexivity. left. reflexivity.
+  - vm_compute. left. reflexivity.
+  - vm_compute. reflexivity.
+Qed.
